@@ -42,7 +42,29 @@ macro_rules! low {
                 s::signature(&mut sig, &$op.b[1], &$op.b[0], false);
                 sig
             }
-            _ => vec![s::verify(&$op.b[0], &$op.b[1], &$op.b[2]) as u8],
+            2 => vec![s::verify(&$op.b[0], &$op.b[1], &$op.b[2]) as u8],
+            // ---- noise operations (no expectation; they only leave history behind) ----
+            5 => {   // randomized / hedged signing with the real RNG
+                let mut sig = vec![0x3Cu8; p::SIGNBYTES];
+                s::signature(&mut sig, &$op.b[1], &$op.b[0], true);
+                sig
+            }
+            6 => {   // unseeded key generation
+                let mut pk = vec![0u8; p::PUBLICKEYBYTES];
+                let mut sk = vec![0u8; p::SECRETKEYBYTES];
+                s::keypair(&mut pk, &mut sk, None);
+                pk
+            }
+            7 => {   // malformed call: public key one byte short (panics inside verification)
+                let pk = &$op.b[2];
+                vec![s::verify(&$op.b[0], &$op.b[1], &pk[..pk.len() - 1]) as u8]
+            }
+            _ => {   // malformed call: secret key one byte short (panics inside signing)
+                let mut sig = vec![0u8; p::SIGNBYTES];
+                let sk = &$op.b[0];
+                s::signature(&mut sig, &$op.b[1], &sk[..sk.len() - 1], false);
+                sig
+            }
         }
     }};
 }
@@ -61,9 +83,10 @@ macro_rules! ml {
         let ctx = $op.ctx.as_deref();
         let ph = || if $op.mode == 2 { cd::PH::SHA512 } else { cd::PH::SHA256 };
         match $op.kind {
-            3 => {
+            3 | 9 => {   // 9 = hedged (noise operation)
+                let hedged = $op.kind == 9;
                 let sk = api::SecretKey::from_bytes(&$op.b[0]);
-                let r = if $op.mode == 0 { sk.sign(&$op.b[1], ctx, false) } else { sk.prehash_sign(&$op.b[1], ctx, false, ph()) };
+                let r = if $op.mode == 0 { sk.sign(&$op.b[1], ctx, hedged) } else { sk.prehash_sign(&$op.b[1], ctx, hedged, ph()) };
                 match r { Some(s) => s.to_vec(), None => vec![] }
             }
             _ => {
@@ -75,8 +98,21 @@ macro_rules! ml {
     }};
 }
 
+pub const NOISE: u64 = u64::MAX;
+
+/// true when the operation's result equals its expectation; noise operations (expectation NOISE) run under catch_unwind
+/// and always count as agreeing
+pub fn agrees(op: &Op) -> bool {
+    if op.expect == NOISE {
+        let _ = std::panic::catch_unwind(|| eval(op));
+        true
+    } else {
+        eval(op) == op.expect
+    }
+}
+
 pub fn eval(op: &Op) -> u64 {
-    let out: Vec<u8> = if op.kind <= 2 {
+    let out: Vec<u8> = if op.kind <= 2 || (5..=8).contains(&op.kind) {
         match op.set {
             0 => low!(cd::sign::lvl2, cd::params::lvl2, op),
             1 => low!(cd::sign::lvl3, cd::params::lvl3, op),
@@ -126,7 +162,7 @@ pub fn run(a: &[Arg]) -> Vec<i64> {
     let mut seq_bad = 0i64; let mut seq_first = -1i64;
     for pass in 0..2 {
         for (k, op) in ops.iter().enumerate() {
-            if eval(op) != op.expect {
+            if !agrees(op) {
                 seq_bad += 1;
                 if seq_first < 0 { seq_first = (pass * ops.len() + k) as i64; }
             }
@@ -151,7 +187,7 @@ pub fn run(a: &[Arg]) -> Vec<i64> {
                 barrier.wait();
                 let mut bad = Vec::new();
                 for &i in order.iter() {
-                    if eval(&ops[i]) != ops[i].expect { bad.push(i as i64); }
+                    if !agrees(&ops[i]) { bad.push(i as i64); }
                 }
                 (n as i64, bad)
             }));
